@@ -269,11 +269,43 @@ def _get_inline_comment_at_line(code_lines: list[str], line: int) -> str:
     assert 0 <= line < len(code_lines)
     assert _contains_field_definition(code_lines[line])
     line_str = code_lines[line]
-    parts = line_str.split("#", maxsplit=1)
-    if len(parts) != 2:
+    _, comment = _split_at_comment(line_str)
+    if comment is None:
         return ""
-    comment = parts[1].strip()
-    return comment
+    return comment.strip()
+
+
+def _split_at_comment(line: str) -> tuple[str, str | None]:
+    r"""Splits a line of code at the first `#` that is not inside a string literal.
+
+    Returns the code and the comment (without the `#`), or `None` when the line has no comment.
+
+    >>> _split_at_comment("a: int = 0  # comment")
+    ('a: int = 0  ', ' comment')
+    >>> _split_at_comment("a: int = 0")
+    ('a: int = 0', None)
+    >>> _split_at_comment('color: str = "#ff0000"')
+    ('color: str = "#ff0000"', None)
+    >>> _split_at_comment("color: str = '#ff0000'  # the color # of it")
+    ("color: str = '#ff0000'  ", ' the color # of it')
+    >>> _split_at_comment('a: str = "\\"#"  # comment')
+    ('a: str = "\\"#"  ', ' comment')
+    """
+    quote: str | None = None  # the quote character of the string literal we are in, if any.
+    i = 0
+    while i < len(line):
+        char = line[i]
+        if quote is not None:
+            if char == "\\":
+                i += 1  # skip the escaped character.
+            elif char == quote:
+                quote = None
+        elif char == '"' or char == "'":
+            quote = char
+        elif char == "#":
+            return line[:i], line[i + 1 :]
+        i += 1
+    return line, None
 
 
 def _get_comment_ending_at_line(code_lines: list[str], line: int) -> str:
